@@ -41,6 +41,13 @@ on both real queues and compared with the model *and* with each other.
              of k consecutive dead entries at the head or behind one live task) and the first read is a bare pop /
              peek / pop(default) / peek(default); k straddles 0, powers of two, the interpreter's recursion limit and
              the first sub-list split (a cost per dead entry - stack frames, quadratic culling - shows up there).
+             "lives" histories: the same queue object lives several lives - burst of k tasks + one urgent task, the
+             burst is cancelled (or re-prioritised, then cancelled), the last live task leaves by pop / remove /
+             pop(default) so that the queue is empty (len 0) on top of up to 2k dead entries, and WITHOUT any read in
+             between the next life re-adds the same tasks at the same priorities; the last life is a handful of adds
+             with len() after each, peek, pop, popped to empty.  Same k as the dead runs (a size-triggered clean-up of
+             an emptied queue has its threshold somewhere).  After every life the next insertion counter must exceed
+             every counter left in the backend.
              "numeric-types" (thousands of Decimal / Fraction / bool / float / int / None priorities with ties across
              types) and "rejected-readds" (churn in which every third step re-prioritises a queued task with an int
              float() cannot take: if that raises, the task keeps its place).
@@ -638,6 +645,8 @@ def _scenario_ops(kind, n):
                 yield ('remove', i // 3, None)
     elif kind.startswith('deadrun:'):
         yield from _deadrun_ops(kind, n)
+    elif kind.startswith('lives:'):
+        yield from _lives_ops(kind, n)
     else:
         raise AssertionError(kind)
 
@@ -678,6 +687,82 @@ def _deadrun_ops(kind, k):
     # ... and the generic part of run_directed pops the rest to empty
 
 
+LIVES_MODES = ('remove', 'requeue', 'demote')
+LIVES_LASTS = ('pop', 'remove', 'popd', 'drain')
+
+
+def _lives_ops(kind, k):
+    """'lives:<mode>:<last>:<number of lives>' - the SAME queue object is used for several phases of life.  In each life
+    a burst of k tasks arrives at the default priority together with one urgent task (queued after the burst in even
+    lives, before it in odd ones); the whole burst is cancelled (mode remove) or first re-prioritised (same / lower
+    priority) and then cancelled, so k (or 2k) dead entries sit BEHIND the one live task; then the last live task leaves
+    (pop / remove / pop(default); 'drain' = pop, then a bare pop on the empty queue, which has to raise IndexError).
+    The queue is now empty of live tasks (len 0) while its backend may still hold every dead entry, and - except after
+    'drain' - NO read happens before the next life starts with the same task objects at the same priorities.  The
+    last life is a handful of adds (new and formerly cancelled / popped tasks, default and explicit priorities, ties)
+    with len() after every add; the generic part of run_directed pops them to empty.  Task indexes: burst 0..k-1,
+    urgent k, newcomers k+1, k+2."""
+    _, mode, last, lives = kind.split(':')
+    top = k
+    for life in range(int(lives) - 1):
+        if life % 2:
+            yield ('add', top, 20)
+        for i in range(k):
+            yield ('add', i, None if i % 2 else 0)
+        if not life % 2:
+            yield ('add', top, 20)
+        if mode != 'remove':
+            for i in range(k):
+                yield ('add', i, 0 if mode == 'requeue' else -5)
+        for i in range(k):
+            yield ('remove', i, None)
+        yield ('len', None, None)
+        if last == 'remove':
+            yield ('remove', top, None)
+        else:
+            yield ('popd' if last == 'popd' else 'pop', None, None)
+        if last == 'drain':
+            yield ('pop', None, None)
+        yield ('len', None, None)
+        yield ('counter', None, None)
+    for i, p in ((k + 1, None), (k + 2, 2), (0, None), (top, 0), (1, 2), (2, 1), (k + 1, None), (3, -5)):
+        if i < k or top <= i <= k + 2:          # former burst tasks only if the burst had that many
+            yield ('add', i, p)
+            yield ('len', None, None)
+    yield ('peek', None, None)
+    yield ('pop', None, None)
+    yield ('len', None, None)
+
+
+def lives_variants(level):
+    full = [(m, l, 2) for m in LIVES_MODES for l in LIVES_LASTS if m == 'remove' or l in ('pop', 'remove')]
+    full += [('remove', 'pop', 3), ('remove', 'remove', 4)]
+    if level == 'full':
+        return full
+    if level == 'few':
+        return [('remove', 'pop', 2), ('remove', 'remove', 3), ('requeue', 'pop', 2), ('demote', 'remove', 2)]
+    if level == 'two':
+        return [('remove', 'pop', 2), ('requeue', 'remove', 2)]
+    raise AssertionError(level)
+
+
+def run_lives_group(arg):
+    """All variants of one burst size -> (violations, one aggregated stats row)."""
+    _, k, factor, level = arg
+    variants = lives_variants(level)
+    Vs = []
+    agg = {'kind': 'lives (%d variants: how the burst dies x how the last live task leaves x number of lives)'
+           % len(variants), 'n': k, 'size_factor': 'native' if factor is None else factor, 'ops': 0, 'max_entries': 0,
+           'max_sublists': 0}
+    for m, l, lives in variants:
+        V, st = run_directed(('lives:%s:%s:%d' % (m, l, lives), k, factor))
+        Vs.extend(V)
+        agg['ops'] += st['ops']
+        agg['max_entries'] = max(agg['max_entries'], st['max_entries'])
+        agg['max_sublists'] = max(agg['max_sublists'], st['max_sublists'])
+    return Vs, agg
+
+
 def deadrun_variants(level):
     """Variant lists (mode, head, first read).  'alldead' differs from 'nohead' only with mode remove."""
     full = [(m, h, f) for m in DEADRUN_MODES for h in ('head', 'nohead') for f in DEADRUN_FIRSTS]
@@ -713,7 +798,8 @@ def run_deadrun_group(arg):
 
 
 def run_directed_item(arg):
-    return run_deadrun_group(arg) if arg[0] == 'deadrun' else run_directed(arg)
+    return (run_deadrun_group(arg) if arg[0] == 'deadrun' else run_lives_group(arg) if arg[0] == 'lives' else
+            run_directed(arg))
 
 
 def run_directed(arg):
@@ -728,7 +814,7 @@ def run_directed(arg):
 
     def body():
         T = [Task(i) for i in range(n + 3)]
-        scripted = kind.startswith('deadrun:')          # the history contains its own reads
+        scripted = kind.startswith(('deadrun:', 'lives:'))          # the history contains its own reads
         qs = {'heap': queueutils.HeapPriorityQueue(), 'sorted': queueutils.SortedPriorityQueue()}
         live = {}            # index -> (effective priority, arrival number)
         arrival = 0
@@ -804,6 +890,35 @@ def run_directed(arg):
                 measure()
                 if not read(name):
                     return
+                continue
+            if name == 'len':
+                for which, q in qs.items():
+                    try:
+                        ln = len(q)
+                    except Exception as e:
+                        ln = 'raised ' + type(e).__name__
+                    stats['ops'] += 1
+                    if ln != len(live):
+                        V.append(('C10|directed|%s:len' % which, case, len(live), ln, None, ()))
+                        return
+                continue
+            if name == 'counter':
+                # the anchored tie-breaker: the next insertion counter exceeds every counter still in the backend (dead
+                # entries included), else a new entry can tie with an old one on (priority, counter).  Internals that
+                # cannot be read are the exhaustive searches' business (internals-unreadable), not reported here.
+                measure()
+                for which, q in qs.items():
+                    try:
+                        flat = [e for sub in entries_of(q, which) for e in sub]
+                        nxt = next(copy.copy(q._counter))
+                        top_c = max(e[1] for e in flat) if flat else None
+                        stale = top_c is not None and not nxt > top_c
+                    except Exception:
+                        continue
+                    if stale:
+                        V.append(('C10|directed|%s:counter-not-monotone' % which, case,
+                                  'next insertion counter > every counter in the backend (%d entries, max %r)'
+                                  % (len(flat), top_c), nxt, None, ()))
                 continue
             if name == 'addx':
                 got = {}
@@ -891,7 +1006,7 @@ def directed_plan(tier):
                  ('rejected-readds', 3000, 8)]
     if tier != 'quick':
         plan += [(k, 80000, None) for k in DIRECTED_KINDS] + [(k, 6000, 8) for k in DIRECTED_KINDS]
-    return plan + deadrun_plan(tier)
+    return plan + deadrun_plan(tier) + lives_plan(tier)
 
 
 def first_split_size(factor):
@@ -924,6 +1039,16 @@ def deadrun_plan(tier):
         plan += [('deadrun', k, None, 'medium') for k in (beyond_split, 2 * beyond_split)]
         plan += [('deadrun', k, 8, 'full') for k in small + edge] + [('deadrun', 4096, 8, 'medium')]
     return [p for p in plan if p[1] >= 0]
+
+
+def lives_plan(tier):
+    """('lives', burst size, size factor, variant level).  Burst sizes = the dead-run lengths (0/1/2, powers of two +-1,
+    recursion limit, beyond the first sub-list split): any size-triggered treatment of a queue that has just lost its
+    last live task (bulk release of dead entries, shrinking, restarting counters) has its threshold somewhere."""
+    out = []
+    for _, k, factor, level in deadrun_plan(tier):
+        out.append(('lives', k, factor, {'medium': 'few'}.get(level, level)))
+    return out
 
 
 # ----------------------------------------------------------------------------------------------------
@@ -1027,7 +1152,9 @@ def run(ctx):
            'removed / re-added lower / re-added with the same priority / re-added higher before anything is consumed '
            '(one run of k consecutive dead entries at the very head or behind one live task), then pop / peek / '
            'pop(default) / peek(default) as the FIRST read, pop, peek, pop, popped to empty, for k around 0, powers of '
-           'two, the interpreter recursion limit and beyond the first sub-list split; priorities of all numeric types '
+           'two, the interpreter recursion limit and beyond the first sub-list split; "lives" histories: the same queue is '
+           'emptied of live tasks (pop / remove / pop(default) of the last one) on top of k..2k dead entries and re-used '
+           'without a read in between, 2-4 lives, same k; priorities of all numeric types '
            'with cross-type ties; churn with re-adds whose priority float() cannot take (must leave the task in place '
            'if they raise); all against a dict + stable-sort oracle', 'scenarios': []}
     for V, stats in dres:
